@@ -320,7 +320,7 @@ static void containment_and_accuracy(unsigned long long& unit)
 int main(int argc, char** argv)
 {
 	mc::init(argc, argv);
-	if(mc::ctx().replay) { printf("%s\n", mc::ctx().replay_case.c_str()); return 0; }
+	if(mc::ctx().replay) { printf("%s\n(no single-case replay for this part; use ./vcheck --replay <file>, which re-runs the enumeration for this key)\n", mc::ctx().replay_case.c_str()); return 0; }
 	mc::bound("rule", "entropy owned by interposing std::random_device::_M_getval(); histories: every sequence of prior calls up to the depth bound over a 10-letter alphabet (all three methods, dimensions 1..6, both Vegas stratification modes, the needle integrand that drives Miser into its fallback), each followed by every one of 12 observed calls x seeds, each observed call in its own grandchild process; oracle: value bits and the complete argument stream equal those of a fresh process; a state is a history, a transition is one observed call after it");
 	unsigned long long unit = 0;
 	histories(unit);
